@@ -443,6 +443,11 @@ RARE_LINES = [
     ("e8 31 01 00 00", "call", "401136", " <add(int, int)>"),
     ("48 8d 05 ba 2e 00 00", "lea", "0x2eba(%rip),%rax", "        # 404010 <vtable for Shape+0x10>"),
     ("e8 00 00 00 00", "call", "10a0", " <std::to_string[abi:cxx11](int)>"),
+    ("8d b4 26 00 00 00 00", "lea", "0x0(%esi,%eiz,1),%esi"),
+    ("8d 74 26 00", "lea", "0x0(%rsi,%riz,1),%rsi"),
+    ("48 c7 44 c4 18 ff ff", "movq", "$0xffffffffffffffff,0x18(%rsp,%rax,8)"),
+    ("4f 69 b4 ec 10 00 00", "imul", "$0x12345678,-0x7ffffff0(%r12,%r13,8),%r14"),
+    ("2e 74 05", "je,pn", "40100b", " <main+0xb>", "je"),
     # prefixes handled by string rewriting: the hint / prefix order must not matter
     ("66 2e 75 00", "data16 jne,pn", "0x4", "", "jne"),
     ("66 3e 75 00", "data16 jne,pt", "0x4", "", "jne"),
@@ -457,8 +462,13 @@ def rare_shape_battery(run, prop):
         raw, m, ops = entry[:3]
         tail = entry[3] if len(entry) > 3 else ""
         a = format(0x401000 + 8 * i, "x") if i % 5 else "00" + format(0x401000 + 8 * i, "x")  # some zero-padded addresses
+        indent = "  "
+        if i % 7 == 3:
+            a, indent = format(0xffffffff81000000 + 8 * i, "x"), ""    # kernel-style: the address fills the column, no indentation
+        elif i % 7 == 5:
+            a, indent = format(0xc1000000 + 8 * i, "x"), ""            # 8-digit address, flush left
         for pad in (("", "   ") if not ops and m != "data16" else ("",)):
-            line = f"  {a}:\t{raw:<21}\t{(m + ' ').ljust(7) + ops + tail if ops else m + pad}"
+            line = f"{indent}{a}:\t{raw:<21}\t{(m + ' ').ljust(7) + ops + tail if ops else m + pad}"
             if len(entry) > 4:
                 m = entry[4]   # the mnemonic that must come out (prefix and hint removed)
             got = real_parse(line)
@@ -594,6 +604,10 @@ def c08_extra(ctx):
         run.failure("filter_chain/FILE/twice", f"the listing twice in one file (two objects in one dump) gave {got.count('|')} instructions, expected {2 * exp.count('|')}", {"kind": "lx_stream", "lines": lines, "expected": exp + exp})
     l1 = "    1000:\t48 89 c3             \tmov    %rax,%rbx\n    1003:\tc3                   \tret\n"
     l2 = "    2000:\t48 31 c3             \txor    %rax,%rbx\n    2003:\tc3                   \tret\n"
+    twice = jasmapi.constructed_first_results([{"pattern": ["ret"]}], l1, ret="stream")
+    run.count("traces_validated_against_impl")
+    if twice != ["1000::mov,%rax,%rbx,|1003::ret,,|"] * 2:
+        run.failure("filter_chain/FILE/same_object_twice", f"one matcher object run twice on the same listing: streams {twice}", {"kind": "lx_stream", "lines": [], "expected": ""})
     (_a1, s1), (_a2, s2) = jasmapi.rewritten_input_results({"pattern": ["zzzz"]}, l1, l2)
     run.count("traces_validated_against_impl")
     if s1 != "1000::mov,%rax,%rbx,|1003::ret,,|" or s2 != "2000::xor,%rax,%rbx,|2003::ret,,|":
